@@ -137,6 +137,7 @@ Proof.
     apply RG_remove_ref, RG_setc, RG_refl.
   - apply RG_cb_return.
   - destruct (Nat.eqb c 0); [apply RG_refl|]. destruct (cancel_root_frame s c) as [E1 [E2 _]]. now apply RG_ext.
+  - destruct (watch_step_spec s c) as [->|[x [y [_ [-> _]]]]]; [apply RG_refl | apply RG_setc, RG_refl].
 Qed.
 
 Lemma RG_run es : forall s, RG s (run repaired s es).
@@ -207,9 +208,122 @@ Proof.
   - unfold fire_section. destruct (nth_error (conss s) c) as [x|] eqn:Ex; [|exact H].
     destruct (ww_firepc x) as [[|]|]; try exact H. apply (Q_remove_ref InvK2 invoke_InvK2). rewrite conss_setc. apply InvK2_set; [exact H|]. exact (H c x Ex).
   - apply (InvK2_map (conss s)); [apply (cfd_cb_return acont); reflexivity | exact H].
+  - destruct (watch_step_spec s c) as [->|[x [y [Hx [-> Hy]]]]]; [exact H|]. wsplit Hy. rewrite conss_setc. apply InvK2_set; [exact H|].
+    pose proof (H c x Hx) as K. unfold acont in *. now rewrite Wares, Waval, Waerr.
 Qed.
 
 Theorem run_InvK2 k es : InvK2 (conss (run repaired (init k) es)).
 Proof. unfold run. apply fold_inv; [intros s e; apply step_InvK2 | intros [|c] x H; discriminate]. Qed.
+
+(* ------------------------------------------------------------------ *)
+(* a parked watcher of the running invocation exists only while the consumer is inside its callback *)
+Definition wp_ok (x : cons) : Prop := ac_wpark x = true -> exists v, cpcv x = CAccCb v.
+Definition InvW (l : list cons) : Prop := forall c x, nth_error l c = Some x -> wp_ok x.
+
+Lemma InvW_set l c y : InvW l -> wp_ok y -> InvW (set_nth l c y).
+Proof.
+  intros H Hy k x Hk. destruct (Nat.lt_ge_cases c (length l)) as [Hl|Hl].
+  - destruct (Nat.eq_dec k c) as [->|Hne].
+    + rewrite nth_error_set_nth_same in Hk by exact Hl. now inversion Hk; subst.
+    + rewrite nth_error_set_nth_other in Hk by exact Hne. exact (H k x Hk).
+  - rewrite set_nth_oob in Hk by exact Hl. exact (H k x Hk).
+Qed.
+
+Lemma InvW_getc s c : InvW (conss s) -> wp_ok (getc s c).
+Proof.
+  intros H. unfold getc. destruct (nth_error (conss s) c) as [x|] eqn:E.
+  - rewrite (nth_error_nth_d _ _ cons0 _ E). exact (H c x E).
+  - rewrite nth_overflow by (now apply nth_error_None). intros Hx. discriminate Hx.
+Qed.
+
+Lemma wp_ok_same x y : wp_ok x -> cpcv y = cpcv x -> (ac_wpark y = true -> ac_wpark x = true) -> wp_ok y.
+Proof. intros H E1 E2 Hy. rewrite E1. apply H. now apply E2. Qed.
+
+Lemma wp_ok_off y : ac_wpark y = false -> wp_ok y.
+Proof. intros E Hy. congruence. Qed.
+
+(* what a reference callback does to the watcher flag of consumer c *)
+Lemma invoke_wp s r n c :
+  cpcv (getc (invoke s r n) c) = cpcv (getc s c) /\
+  (ac_wpark (getc (invoke s r n) c) = true -> ac_wpark (getc s c) = true \/ exists v, cpcv (getc s c) = CAccCb v).
+Proof.
+  destruct (invoke_cq s r n c) as [_ [Ep _]]. split; [exact Ep|].
+  unfold invoke. destruct (nth_error (refs s) r) as [x|] eqn:E; [|now left].
+  assert (G1 : forall c', getc (set_last s r n) c' = getc s c') by (intros c'; apply getc_set_last).
+  assert (SC : forall s2 c' y, (forall c0, getc s2 c0 = getc s c0) ->
+             (c' = c -> ac_wpark y = true -> ac_wpark (getc s c) = true \/ exists v, cpcv (getc s c) = CAccCb v) ->
+             ac_wpark (getc (setc s2 c' y) c) = true -> ac_wpark (getc s c) = true \/ exists v, cpcv (getc s c) = CAccCb v).
+  { intros s2 c' y G2 Hy. destruct (Nat.lt_ge_cases c' (length (conss s2))) as [Hl|Hl].
+    - rewrite getc_setc by exact Hl. destruct (Nat.eqb_spec c c') as [->|Hne]; [now apply Hy | rewrite G2; now left].
+    - rewrite getc_setc_oob by exact Hl. rewrite G2. now left. }
+  destruct (rkind x) as [| | |c'|c'|c'] eqn:K.
+  - now left.
+  - rewrite G1. now left.
+  - destruct n; [rewrite G1; now left|]. change (getc (set_asyncs ?a ?b) c) with (getc a c). rewrite G1. now left.
+  - apply (SC (set_last s r n)); auto. intros ->. cbn [ac_wpark cb_wait]. now left.
+  - rewrite G1. destruct (cb_wwr (getc s c') n (nonce (set_last s r n))) as [y fired] eqn:Ew.
+    assert (W : ac_wpark y = ac_wpark (getc s c')).
+    { unfold cb_wwr in Ew. destruct (ww_res (getc s c')); [destruct (_ && negb (ww_once (getc s c'))) | destruct n]; inversion Ew; reflexivity. }
+    set (s2 := set_refs (set_last s r n) (set_nth (refs (set_last s r n)) r {| rin := rin x; rflag := true; rkind := KWwr c'; rlast := Some n |})).
+    assert (G2 : forall c0, getc s2 c0 = getc s c0) by (intros c0; unfold getc, s2; cbn [conss set_refs]; now rewrite conss_set_last).
+    destruct fired; [destruct (rflag x)|]; [apply (SC (set_last s r n)) | apply (SC s2) | apply (SC (set_last s r n))]; auto; intros ->; cbn [ac_wpark with_fire]; rewrite W; now left.
+  - apply (SC (set_last s r n)); auto. intros ->. unfold cb_access.
+    destruct n as [|v e]; [destruct (Bool.eqb false (ac_res (getc s c)) && Nat.eqb 0 (ac_val (getc s c)) && Nat.eqb 0 (ac_err (getc s c)))
+                          | destruct (Bool.eqb true (ac_res (getc s c)) && Nat.eqb v (ac_val (getc s c)) && Nat.eqb e (ac_err (getc s c)))];
+      try (now left); cbn [ac_wpark]; destruct (cpcv (getc s c)); try (now left); intros _; right; eauto.
+Qed.
+
+Lemma invoke_InvW s r n : InvW (conss s) -> InvW (conss (invoke s r n)).
+Proof.
+  intros H c x' Hx'. destruct (getc_nth_error _ c x' Hx') as [Eg _]. rewrite <- Eg. destruct (invoke_wp s r n c) as [Ep Ew].
+  intros Hw. rewrite Ep. destruct (Ew Hw) as [Hold|Hcb]; [exact (InvW_getc s c H Hold) | exact Hcb].
+Qed.
+
+Lemma step_InvW s e : InvW (conss s) -> InvW (conss (step repaired s e)).
+Proof.
+  intros H. destruct e; try (apply (Q_step_container InvW invoke_InvW); [exact I | exact H]); cbn [step].
+  - unfold release_section. destruct (nth_error (relacts s) a) as [x|]; [|exact H]. destruct (ra_pc x); [|exact H].
+    set (s1 := remove_ref _ (ra_ref x)). assert (H1 : InvW (conss s1)) by (apply (Q_remove_ref InvW invoke_InvW); exact H).
+    destruct (ra_cons x) as [c|]; [|exact H1]. destruct (cpcv (getc s1 c)) eqn:Ec; try exact H1.
+    cbn [conss set_conss]. apply InvW_set; [exact H1|]. apply wp_ok_off. cbn [ac_wpark with_cpc].
+    destruct (ac_wpark (getc s1 c)) eqn:Ew; [|reflexivity]. destruct (InvW_getc s1 c H1 Ew) as [v Ev]. congruence.
+  - unfold start_consumer. apply (Q_add_ref InvW invoke_InvW). cbn [conss set_conss].
+    intros c x Hx. destruct (nth_error_snoc_cases _ _ _ _ Hx) as [[_ H0]|[_ ->]]; [exact (H c x H0) | apply wp_ok_off; reflexivity].
+  - (* a consumer's own step: nothing happens inside the callback; elsewhere no watcher is parked *)
+    intros c' x' Hx'. destruct (getc_nth_error _ c' x' Hx') as [Eg _]. rewrite <- Eg.
+    destruct (Nat.eq_dec c' c) as [->|Hne]; [|rewrite cons_step_other by exact Hne; now apply InvW_getc].
+    pose proof (map_nth_getc ac_wpark s (cons_step s c) c ((cfd_cons_step ac_wpark) ltac:(reflexivity) ltac:(reflexivity) s c)) as Ew.
+    intros Hw. rewrite Ew in Hw. destruct (InvW_getc s c H Hw) as [v Ev].
+    assert (Idle : cons_step s c = s).
+    { unfold cons_step. destruct (nth_error (conss s) c) as [x|] eqn:Ex; [|reflexivity]. rewrite (getc_x s c x Ex) in Ev. rewrite Ev. destruct (ck x); reflexivity. }
+    rewrite Idle. eauto.
+  - destruct (nth_error (conss s) c) as [x|] eqn:Ex; [|exact H]. rewrite conss_setc. apply InvW_set; [exact H|]. apply (wp_ok_same x); auto. exact (H c x Ex).
+  - unfold fire_section. destruct (nth_error (conss s) c) as [x|] eqn:Ex; [|exact H].
+    destruct (ww_firepc x) as [[|]|]; try exact H. apply (Q_remove_ref InvW invoke_InvW). rewrite conss_setc. apply InvW_set; [exact H|].
+    apply (wp_ok_same x); auto. exact (H c x Ex).
+  - (* the callback returns: its watcher, if parked, is a stale one from now on *)
+    intros c' x' Hx'. destruct (getc_nth_error _ c' x' Hx') as [Eg Hl']. rewrite <- Eg.
+    destruct (Nat.eq_dec c' c) as [->|Hne]; [|rewrite cb_return_other by exact Hne; now apply InvW_getc].
+    unfold cb_return. destruct (nth_error (conss s) c) as [x|] eqn:Ex; [|now apply InvW_getc].
+    destruct (getc_nth_error s c x Ex) as [Egx Hl].
+    assert (Keep : wp_ok (getc s c)) by (now apply InvW_getc).
+    destruct (ck x); try exact Keep. destruct (cpcv x) eqn:Ep; try exact Keep.
+    assert (AR : forall e', wp_ok (getc (acc_ret s c (cb_done x) e') c)).
+    { intros e'. apply wp_ok_off.
+      unfold acc_ret. pose proof (conss_release_call_by (setc s c (with_cpc (cb_done x) (CRel e'))) (cref (cb_done x)) (Some c)) as G.
+      destruct (release_call_by (setc s c (with_cpc (cb_done x) (CRel e'))) (cref (cb_done x)) (Some c)) as [s1 parked]. cbn [fst] in G.
+      destruct parked.
+      - unfold getc. rewrite G, conss_setc, nth_set_nth_same by exact Hl. reflexivity.
+      - unfold getc. rewrite conss_setc, nth_set_nth_same; [reflexivity|]. rewrite G, conss_setc, length_set_nth. exact Hl. }
+    destruct (ccanc x); [apply AR|].
+    match goal with |- wp_ok (getc (if ?b then _ else _) _) => destruct b end; [apply AR|].
+    rewrite getc_setc, Nat.eqb_refl by exact Hl. apply wp_ok_off. reflexivity.
+  - destruct (watch_step_spec s c) as [->|[x [y [Hx [-> Hy]]]]]; [exact H|]. wsplit Hy. rewrite conss_setc. apply InvW_set; [exact H|].
+    apply (wp_ok_same x); [exact (H c x Hx) | exact Wcpcv|]. destruct Wwatch as [[_ [_ E]]|[_ [_ [_ [E _]]]]]; congruence.
+Qed.
+
+Theorem run_InvW k es : InvW (conss (run repaired (init k) es)).
+Proof. unfold run. apply fold_inv; [intros s e; apply step_InvW | intros [|c] x H; discriminate]. Qed.
 Print Assumptions run_InvF.
 Print Assumptions run_InvK2.
+Print Assumptions run_InvW.
